@@ -124,7 +124,7 @@ def generate(r, tier, prop):
             r.shuffle(pool)
             if diamond is not None:
                 # override a member of the common ancestor (preferably one with snapshots) in the most derived class
-                anc = [(m, classes[diamond]["own"][m]["kind"]) for m in sorted(classes[diamond]["own"]) if classes[diamond]["own"][m]["kind"] not in ("alias", "shared", "prop_ext")]
+                anc = [(m, classes[diamond]["own"][m]["kind"]) for m in sorted(classes[diamond]["own"]) if classes[diamond]["own"][m]["kind"] not in ("alias", "shared", "prop_ext", "cprop")]
                 anc.sort(key=lambda x: not classes[diamond]["own"][x[0]]["snaps"])
                 if anc:
                     pool = [anc[0]] + [p for p in pool if p[0] != anc[0][0]]
@@ -146,6 +146,9 @@ def generate(r, tier, prop):
                     ms["wraps"] = True  # a foreign functools.wraps decorator above the contract decorators
                 info["own"][m] = {"pre": ms["pre"], "kind": kind, "snaps": [s["name"] for s in ms.get("snaps", [])], "post": ms["post"]}
                 spec["methods"].append(ms)
+            if r.random() < 0.12 and "cp0" not in info["own"] and not spec.get("builtin"):
+                spec["methods"].append({"name": "cp0", "kind": "cprop"})  # functools.cached_property (no contracts of its own)
+                info["own"]["cp0"] = {"pre": [], "kind": "cprop", "snaps": [], "post": []}
             if bases and r.random() < 0.2:
                 # a property of a base extended with a setter of its own (@Base.p0.setter); the getter stays the base's
                 pc = sorted(m for b in bases for x in mro(b) for m in classes[x]["own"] if classes[x]["own"][m]["kind"] == "prop" and m not in info["own"])
@@ -238,9 +241,31 @@ def generate(r, tier, prop):
                         mk = "method"
                     if mk == "prop_ext":
                         mk = "prop"
+                    if mk == "cprop":
+                        continue
                     spec = {"name": "B%d" % i, "base": c, "methods": [{"name": m, "kind": mk, "pre": [{}], "post": []}], "invs": []}
                     if r.random() < 0.5:
                         spec["invs"].append({"check_on": r.choice(["CALL", "SETATTR", "ALL"])})
+                    if r.random() < 0.5:
+                        # the rejected class also borrows a member of a contract class outside its ancestors (placed first in its body)
+                        anc_ = set(mro(c))
+                        lend = [(x, mm) for x in sorted(classes) if x not in anc_ and classes[x].get("dbc", True) and not any(classes[y].get("has_inv") for y in mro(x))
+                                for mm in sorted(classes[x]["own"]) if classes[x]["own"][mm]["kind"] == "method" and not classes[x]["own"][mm]["snaps"] and mm != m]
+                        if lend:
+                            x, mm = r.choice(lend)
+                            spec["methods"].insert(0, {"name": mm, "kind": "alias", "of": "%s.%s" % (x, mm)})
+                            follow = [cb for cb in sorted(classes) if cb not in mro(x) and x not in mro(cb) and classes[cb].get("dbc", True) and has_member(cb, mm)
+                                      and not any(classes[y]["own"].get(mm, {}).get("snaps") for y in mro(cb))]
+                            if follow and r.random() < 0.7:
+                                # ... and a corrected class that borrows the same member is defined right afterwards
+                                steps.append({"op": "bad", "kind": kind, "spec": spec, "expect": "TypeError"})
+                                name2 = "K%d" % nk
+                                nk += 1
+                                cb = r.choice(follow)
+                                spec2 = {"name": name2, "base": cb, "methods": [{"name": mm, "kind": "alias", "of": "%s.%s" % (x, mm)}], "invs": []}
+                                classes[name2] = {"bases": [cb], "own": {mm: {"pre": [], "kind": "alias", "snaps": [], "post": []}}, "dbc": True}
+                                steps.append({"op": "class", "spec": spec2})
+                                continue
                     steps.append({"op": "bad", "kind": kind, "spec": spec, "expect": "TypeError"})
                     continue
                 kind = "snap_no_post"
@@ -785,7 +810,7 @@ def execute(scn, want):
                 fp_new = m.fingerprint(name)
                 for ms in step["spec"].get("methods", ()):
                     kind_ = ms.get("kind", "method")
-                    if kind_ in ("alias", "shared", "prop_ext"):
+                    if kind_ in ("alias", "shared", "prop_ext", "cprop"):
                         continue
                     exp = _declared(m, name, ms["name"], touched)
                     if exp is None:
